@@ -183,7 +183,9 @@ func (w *world) events() []simsync.Event {
 		default:
 			// A clock advance. With exact delivery, time stands still
 			// while something is due.
-			if !w.late && due {
+			if !w.late && (due || w.sim.HasDue()) {
+				// Also when the due timer cannot be delivered yet because
+				// its owner is parked somewhere: it must not become late.
 				continue
 			}
 			out = append(out, e)
